@@ -6,6 +6,7 @@ import (
 	"fmt"
 	"strconv"
 	"strings"
+	"unicode/utf16"
 
 	"github.com/tsawler/tabula/core"
 )
@@ -33,6 +34,11 @@ type CMapRange struct {
 	StartCode    uint32
 	EndCode      uint32
 	StartUnicode uint32
+
+	// startUnits holds the destination as UTF-16 code units when it is longer
+	// than one unit (a surrogate pair, or several characters such as a
+	// ligature). The offset within the range is added to the last unit.
+	startUnits []uint16
 }
 
 // NewCMap creates a new empty CMap
@@ -326,7 +332,7 @@ func (cm *CMap) parseBfRangeSection(section string) error {
 
 		startCode, err1 := parseHexToUint32(startHex)
 		endCode, err2 := parseHexToUint32(endHex)
-		dstUnicode, err3 := parseHexToUint32(dstHex)
+		dstUnicode, dstUnits, err3 := parseBfRangeDst(dstHex)
 
 		if err1 != nil || err2 != nil || err3 != nil {
 			continue
@@ -337,6 +343,7 @@ func (cm *CMap) parseBfRangeSection(section string) error {
 			StartCode:    startCode,
 			EndCode:      endCode,
 			StartUnicode: dstUnicode,
+			startUnits:   dstUnits,
 		})
 	}
 
@@ -411,7 +418,7 @@ func (cm *CMap) parseBfRangeSectionWithArrays(section string) error {
 
 			startCode, err1 := parseHexToUint32(startHex)
 			endCode, err2 := parseHexToUint32(endHex)
-			dstUnicode, err3 := parseHexToUint32(dstHex)
+			dstUnicode, dstUnits, err3 := parseBfRangeDst(dstHex)
 
 			if err1 != nil || err2 != nil || err3 != nil {
 				continue
@@ -421,6 +428,7 @@ func (cm *CMap) parseBfRangeSectionWithArrays(section string) error {
 				StartCode:    startCode,
 				EndCode:      endCode,
 				StartUnicode: dstUnicode,
+				startUnits:   dstUnits,
 			})
 		}
 
@@ -532,6 +540,12 @@ func (cm *CMap) Lookup(charCode uint32) string {
 		if charCode >= r.StartCode && charCode <= r.EndCode {
 			// Calculate Unicode value
 			offset := charCode - r.StartCode
+			if r.startUnits != nil {
+				// Multi-unit destination: increment the last UTF-16 unit
+				units := append([]uint16(nil), r.startUnits...)
+				units[len(units)-1] += uint16(offset)
+				return string(utf16.Decode(units))
+			}
 			unicodeValue := r.StartUnicode + offset
 			return string(rune(unicodeValue))
 		}
@@ -665,6 +679,30 @@ func parseHexToUint32(hexStr string) (uint32, error) {
 	}
 
 	return uint32(val), nil
+}
+
+// parseBfRangeDst parses the destination of a <start> <end> <dst> bfrange
+// entry. A destination of a single UTF-16 code unit is returned as a number.
+// A longer destination (a surrogate pair, or a multi-character string such as
+// a ligature) is returned as its UTF-16BE code units; per the CMap
+// specification the last unit is incremented across the range.
+func parseBfRangeDst(dstHex string) (uint32, []uint16, error) {
+	padded := dstHex
+	if len(padded)%2 != 0 {
+		padded = "0" + padded
+	}
+	if len(padded) > 4 && len(padded)%4 == 0 {
+		if data, err := hex.DecodeString(padded); err == nil {
+			units := make([]uint16, len(data)/2)
+			for i := range units {
+				units[i] = uint16(data[2*i])<<8 | uint16(data[2*i+1])
+			}
+			return 0, units, nil
+		}
+	}
+
+	val, err := parseHexToUint32(dstHex)
+	return val, nil, err
 }
 
 // hexToUnicode converts hex string to Unicode string
